@@ -22,6 +22,7 @@ RULE = (
     "non-trivial = the history has a consumer operation and a producer operation and at least one "
     "receive was suspended or cancelled"
 )
+RULE += " Round 15: the same histories (L-2) with an earlier event loop of the process still open in which the library was used before."
 ASSUMPTIONS = [
     "single consumer (the class excludes concurrent consumers)",
     "loop callbacks run FIFO (asyncio contract); producer operations happen between loop runs",
@@ -55,6 +56,7 @@ def programs(tier: str):
     yield {"L": BOUNDS[tier]["L"] - 1, "loop_kw": True}
     yield {"L": BOUNDS[tier]["L"] - 2, "initial": True}
     yield {"L": BOUNDS[tier]["L"] - 2, "initial": True, "loop_kw": True}
+    yield {"L": BOUNDS[tier]["L"] - 2, "prior_loop": True}
     # explicit-state searches run to a fixpoint: operation sequences of EVERY length in which the
     # backlog (accepted, not yet received) never exceeds B elements
     for backlog in (3, 4) if tier == "quick" else (3, 4, 6, 9):
@@ -316,6 +318,16 @@ def execute(program, ch: Chooser) -> Result:  # noqa: C901, PLR0912, PLR0915
     if program.get("fix"):
         return execute_fix(program)
     L = program["L"]
+    prior = None
+    if program.get("prior_loop"):
+        # an earlier event loop of this process that is still open (not running: e.g. a worker
+        # thread's loop between two runs) and in which the library was used already
+        from asyncio import events as _events
+
+        prior = VLoop()
+        prior.open()
+        AsyncQueue().enqueue(1)
+        _events._set_running_loop(None)
     loop = VLoop()
     loop.open()
     try:
@@ -472,3 +484,5 @@ def execute(program, ch: Chooser) -> Result:  # noqa: C901, PLR0912, PLR0915
         return Result(outcome, nontrivial, viols, {"history": hist, "received": received})
     finally:
         loop.shutdown()
+        if prior is not None:
+            prior.shutdown()
